@@ -31,7 +31,8 @@ REQUIRED = {'update-optimal': 2000, 'update-untouched': 150,
     'end-optimal': 200, 'restart': 200, 'permutation': 200, 'reject': 60,
     'info': 200, 'cb-stop': 60, 'adaptive': 40, 'adaptive-stab': 20, 'f-update-optimal': 500,
     'f-descent': 100, 'f-end-optimal': 40, 'f-restart': 60,
-    'f-permutation': 60, 'f-shared-start': 60, 'adaptive-reject': 20}
+    'f-permutation': 60, 'f-shared-start': 60, 'adaptive-reject': 20,
+    'f-bases-per-mode': 100}
 REQUIRED_EVENTS = {'singleton-at-row0': 30, 'singleton-at-last-row': 30}
 ASSUMPTIONS = ['lamb=None (unregularised, rank-deficient solves) is outside '
     'the quantifier (lamb > 0) and is not driven',
@@ -502,6 +503,45 @@ def run_func(case, ctx):
     ctx.check('f-restart', np.array_equal(X, X_pristine), 'als_func changed '
         'the training points it was given (seen after repeated calls on the '
         'same array)')
+    # user bases given per dimension, of DIFFERENT sizes (fh as a list of
+    # callables): the result keeps the shape of the initial approximation and
+    # each sweep descends in the objective formed with those bases
+    if d >= 2:
+        nb = [int(rng.integers(2, 7)) for _ in range(d)]
+        if len(set(nb)) == 1:
+            nb[-1] = nb[0] + 1
+        if rng.random() < 0.5:
+            nb = sorted(nb)                 # first mode smallest
+        fhs = [(lambda x, k_=k_: np.stack([np.cos(j * x) if j % 2 == 0 else
+            np.sin(j * x) for j in range(k_)])) for k_ in nb]
+        Hb = [f(X_pristine[:, k_]).T for k_, f in enumerate(fhs)]
+        rb = gen.rand_ranks(rng, d, 3)
+        A0b = gen.cores(rng, nb, rb, 'normal')
+        sw = int(rng.integers(1, 4))
+        _acc_log['Y'] = []
+        _acc_log['on'] = True
+        try:
+            Ab = teneva.als_func(X_pristine.copy(), y, A0b, nswp=sw, e=None,
+                info={}, fh=fhs, lamb=lamb, thr_pow=0.)
+        finally:
+            _acc_log['on'] = False
+        logb = list(_acc_log['Y'])
+        whyb = ref.wellformed(Ab, nb)
+        if ctx.check('f-bases-per-mode', whyb is None and ref.ranks_of(Ab) ==
+                rb, f'als_func with per-dimension bases of sizes {nb}: '
+                f'result {whyb or ref.ranks_of(Ab)} (start: shape {nb}, '
+                f'ranks {rb})'):
+            jsb = [J_func(A0b, Hb, y, lamb)] + [J_func(T_, Hb, y, lamb)
+                for T_ in logb if ref.wellformed(T_, nb) is None]
+            if len(jsb) == sw + 1:
+                badb = [(s_, p_, q_) for s_, (p_, q_) in enumerate(zip(jsb,
+                    jsb[1:])) if not q_ <= p_ * (1 + 1e-10)]
+                ctx.check('f-bases-per-mode', not badb, 'als_func with per-'
+                    f'dimension bases of sizes {nb}: objective increased '
+                    f'{badb[:2]}')
+            ctx.check('f-bases-per-mode', J_func(Ab, Hb, y, lamb) <=
+                jsb[0] * (1 + 1e-10), 'als_func with per-dimension bases: '
+                'the result is worse than the start')
     # the initial approximation as a caller may well build it: one array
     # OBJECT at several positions ([G0, G, G, Gd], a periodic start), against
     # the same values in distinct arrays
